@@ -177,9 +177,17 @@ Definition w_put (k : key) (n s : bytes) : put_req := mkPut k [118] None None No
 Definition w_req : write_req := mkWrite [w_put [112; 49] [97] [53]; w_put [112; 50] [98] [107]] [] [].
 Definition w_ops : list db_op := [OpWrite w_req 0 1000].
 
+Lemma put_ok_intro p :
+  op_key (p_key p) -> pk_ok (p_key p) -> Forall si_ok (p_indexes p) ->
+  (p_deltas p <> [] -> is_internal (p_key p) = false) -> put_ok p.
+Proof.
+  intros H1 [H2 H2'] H3 H4. split; [exact H1|]. split; [exact H3|]. split; [|exact H4].
+  intros _. split; [exact H2'|intros _; exact H2].
+Qed.
+
 Lemma w_put_ok k n s : is_internal k = false -> pk_ok k -> name_ok n -> skey_ok s -> put_ok (w_put k n s).
 Proof.
-  intros H1 H2 H3 H4. split; [left; exact H1|]. split; [exact H2|]. split.
+  intros H1 H2 H3 H4. apply put_ok_intro; [left; exact H1|exact H2| |].
   - constructor; [split; assumption|constructor].
   - intro H. exfalso. apply H. reflexivity.
 Qed.
@@ -287,13 +295,13 @@ Proof.
   repeat match goal with |- _ /\ _ => split end.
   - split; [|split; constructor]. constructor; [|constructor; [|constructor]]; apply w_put_ok; bytes_ok.
   - split; [|split; constructor]. constructor; [|constructor].
-    split; [left; reflexivity|]. split; [bytes_ok|]. split; [|nodeltas].
+    apply put_ok_intro; [left; reflexivity|bytes_ok| |nodeltas].
     constructor; [bytes_ok|constructor; [bytes_ok|constructor]].
   - split; [|split; constructor]. constructor; [|constructor].
-    split; [exact e_sess_op|]. split; [|split; [constructor|nodeltas]].
+    apply put_ok_intro; [exact e_sess_op| |constructor|nodeltas].
     split; [discriminate|]. vm_compute. repeat constructor.
   - split; [|split; constructor]. constructor; [|constructor].
-    split; [left; reflexivity|]. split; [bytes_ok|]. split; [|nodeltas].
+    apply put_ok_intro; [left; reflexivity|bytes_ok| |nodeltas].
     constructor; [bytes_ok|constructor].
   - split; [constructor|split].
     + constructor; [left; reflexivity|constructor].
